@@ -337,8 +337,8 @@ META = {
                 note="trees come from the parser on bounded inputs; Width in 0..8; sources with a line continuation inside a word or inside a here-document are excluded (go.sh keeps such words as two literals; the properties exclude continuations inside words); known finding KF-C05-lone-backslash"),
     "C18": dict(text="On every accepting path within the bounds and every Config bit pattern: printing the re-parsed output is byte-identical (fix-point), printing the same tree twice is identical, the tree skeleton (incl. Sep fields) is unchanged by Fprint, and a writer failing at any symbolic offset makes Fprint return an error. " + BOUNDED,
                 note="outputs are shorter than bufio's 4096-byte buffer, so the writer sees one Write at Flush (the multi-flush path is not exercised); trees with a lone trailing backslash are checked for purity/determinism only (see KF-C05-lone-backslash)"),
-    "C06": dict(text="The schedule is a variable of the exploration: on each input the call is run under the canonical schedule and under every interleaving of the lexer/parser goroutines with a bounded number of preemptions (all choices among runnable goroutines and among ready select cases enumerated); results (commands, comments, error, input consumed / value, error, variables) must agree, and at return nothing started by the call may be alive, touch the reader later, or stay blocked. " + BOUNDED,
-                note="the schedule dimension is enumerated by the executor (the solver decides only data branches); scheduling points are channel operations, select, mutex, atomics, go and goroutine exit of the engine's scheduler model — preemption inside non-synchronising code and a happens-before race monitor are NOT modelled (the data-race part of the statement is outside this check); schedule-dependent counterexamples are confirmed by the engine's recorded interleaving, not natively"),
+    "C06": dict(text="The schedule is a variable of the exploration: on each input the call is run under the canonical schedule and under every interleaving of the lexer/parser goroutines with a bounded number of preemptions (all choices among runnable goroutines and among ready select cases enumerated); results (commands, comments, error, input consumed / value, error, variables) must agree, at return nothing started by the call may be alive, touch the reader later, or stay blocked, and no pair of conflicting accesses may be unordered by happens-before. " + BOUNDED,
+                note="the schedule dimension is enumerated by the executor (the solver decides only data branches); scheduling points are channel operations, select, mutex, atomics, go and goroutine exit of the engine's scheduler model; data races are looked for by the engine's happens-before monitor (vector clocks over channel/mutex/atomic/go edges, pointer loads and stores) on the explored schedules — a model, not the Go race detector; schedule-dependent counterexamples are confirmed by the engine's recorded interleaving, not natively"),
     "C07": dict(text="Metamorphic stream check on every path within the bounds: if A alone is accepted and fully consumed, then on the stream A<newline>B the first call returns exactly A's commands and comments and leaves the scanner at the first character of B, and the second call returns B and consumes it through its newline; blank lines give empty results and consume one line. " + BOUNDED,
                 note="A ranges over bounded inputs/templates; B is one fixed simple command; A ending in a backslash or line continuation and comment-only lines (skipped together with following blank lines, as the repository's tests pin) are excluded"),
     "C08": dict(text="For every site and every value of the symbolic body runes within the bounds, each << / <<- redirection receives exactly the lines a reference here-document reader assigns to it (operator order, byte for byte, delimiter after quote removal, tab-indented delimiter for <<-), the body is expanded iff the delimiter is unquoted, and a missing delimiter line is an error. " + BOUNDED,
